@@ -22,6 +22,16 @@ Definition w_bin_lower : oexpr0 := atom1 "windows-registry-key" [SKey (u "key")]
 Definition w_re_upper : oexpr0 := atom1 "windows-registry-key" [SKey (u "key")] OpMatches (KP (PStr (u "\\D"))).
 Definition w_re_lower : oexpr0 := atom1 "windows-registry-key" [SKey (u "key")] OpMatches (KP (PStr (u "\\d"))).
 
+(* [ipv4-addr:value MATCHES '10.0.0.1/8'] and ... '10.0.0.0/8' *)
+Definition w_ipre_a : oexpr0 := atom1 "ipv4-addr" [SKey (u "value")] OpMatches (KP (PStr (u "10.0.0.1/8"))).
+Definition w_ipre_b : oexpr0 := atom1 "ipv4-addr" [SKey (u "value")] OpMatches (KP (PStr (u "10.0.0.0/8"))).
+
+Lemma pinned_ipregex_equiv : equiv pinned 8 w_ipre_a w_ipre_b = Ok true.
+Proof. vm_compute. reflexivity. Qed.
+
+Lemma repaired_ipregex_distinct : equiv repaired 8 w_ipre_a w_ipre_b = Ok false.
+Proof. vm_compute. reflexivity. Qed.
+
 Lemma pinned_raises : equiv pinned 8 w_ip_int w_ip_int = Err EAttribute.
 Proof. vm_compute. reflexivity. Qed.
 
@@ -52,9 +62,9 @@ Definition H_bin (bytes : list N) : ustring -> list step -> cop -> bool -> dcons
   fun _ _ _ _ d _ => match d with DP (DBin bs) => list_N_eqb bs bytes | _ => false end.
 
 Definition H_str (s0 : ustring) : ustring -> list step -> cop -> bool -> dconst -> unit -> bool :=
-  fun t p _ _ d _ =>
+  fun t p o _ d _ =>
     match special_kind t p with
-    | SpIp _ => false
+    | SpIp true => false
     | _ => match d with DP (DStr s) => list_N_eqb s s0 | _ => false end
     end.
 
@@ -65,8 +75,8 @@ Proof.
   inversion E. reflexivity.
 Qed.
 
-Lemma H_bin_cidr : forall bytes, respects_cidr unit (H_bin bytes).
-Proof. intros bytes v6 t p o n s s' x _ _. reflexivity. Qed.
+Lemma H_bin_cidr : forall bytes, respects_cidr6 unit (H_bin bytes).
+Proof. intros bytes t p o n s s' x _ _ _. reflexivity. Qed.
 
 Lemma H_str_respects : forall s0, respects_denotation unit (H_str s0).
 Proof.
@@ -75,11 +85,12 @@ Proof.
   inversion E; reflexivity.
 Qed.
 
-Lemma H_str_cidr : forall s0, respects_cidr unit (H_str s0).
-Proof. intros s0 v6 t p o n s s' x Ek _. unfold H_str. rewrite Ek. reflexivity. Qed.
+Lemma H_str_cidr : forall s0, respects_cidr6 unit (H_str s0).
+Proof. intros s0 t p o n s s' x Ek _ _. unfold H_str. rewrite Ek. reflexivity. Qed.
 
 Definition one_key_object : list (observation unit) := [(0, [tt])].
 Definition regkey_type : unit -> ustring := fun _ => u "windows-registry-key".
+Definition ip4_type : unit -> ustring := fun _ => u "ipv4-addr".
 
 (* the binary constants are NOT equivalent: one observation matches the first pattern only *)
 Lemma bin_patterns_differ :
@@ -95,6 +106,16 @@ Qed.
 Lemma regex_patterns_differ :
   matches0 unit regkey_type (H_str (u "\\D")) one_key_object w_re_upper /\
   ~ matches0 unit regkey_type (H_str (u "\\D")) one_key_object w_re_lower.
+Proof.
+  split.
+  - exists [0%nat]. simpl. exists 0%nat, 0, [tt]. repeat split.
+  - intros [b Hb]. simpl in Hb. destruct Hb as [i [t [xs [_ [Hn Hx]]]]].
+    destruct i as [|[|i]]; simpl in Hn; try discriminate. inversion Hn; subst. vm_compute in Hx. discriminate.
+Qed.
+
+Lemma ipregex_patterns_differ :
+  matches0 unit ip4_type (H_str (u "10.0.0.1/8")) one_key_object w_ipre_a /\
+  ~ matches0 unit ip4_type (H_str (u "10.0.0.1/8")) one_key_object w_ipre_b.
 Proof.
   split.
   - exists [0%nat]. simpl. exists 0%nat, 0, [tt]. repeat split.
